@@ -235,7 +235,7 @@ Proof.
       * unfold Post. cbn [watched flat_map app]. rewrite app_nil_r.
         split; [|split; [reflexivity|split; [intros (k & d & [])|split; [intros h []|split; [|reflexivity]]]]].
         -- pose proof (IAev (evq (cm s))) as J. 
-           assert (E : on_cm (k_evq (evq (cm s))) s2 = s2) by (subst s2; destruct s as [c m [d q a p e] g]; reflexivity).
+           assert (E : on_cm (k_evq (evq (cm s))) s2 = s2) by (subst s2; destruct s as [c m [d q a p e] g sh]; reflexivity).
            rewrite E in J. apply J. intros h Hh. destruct (I9 h Hh) as [Hr Hd]. split; [lia|].
            intros i Hi Hle. apply in_or_app. left. apply Hd; assumption.
         -- apply Cx; reflexivity.
@@ -294,11 +294,11 @@ Qed.
 Lemma IC_alldone s : IC s -> mip (ch s) = false -> alldone s.
 Proof. intros C Hm. destruct (C Hm) as (_ & A & _). exact A. Qed.
 
-Lemma step_LFundingLocked s : IA s -> IC s -> Post s (step s LFundingLocked).
+Lemma step_LFundingLocked s oc : IA s -> IC s -> Post s (step s (LFundingLocked oc)).
 Proof.
   intros I C. unfold step.
   destruct (our_cr (ch s)).
-  - apply Post_flags; [exact I|apply same_struct_refl|constructor|intros []; reflexivity|exact C].
+  - apply Post_flags; [exact I|ss|constructor|intros []; reflexivity|eapply IC_same; [|exact C]; si].
   - destruct (mip (ch s)) eqn:Hm.
     + apply Post_flags; [exact I|ss|constructor|intros []; reflexivity|apply IC_mip; cbn; exact Hm].
     + destruct (pd (ch s)).
@@ -363,6 +363,27 @@ Proof.
     + apply PostL_flags; [exact I|ss|constructor|intros k d []|eapply IC_same; [|exact C]; si].
 Qed.
 
+Lemma step_LShutdown s lo sc v : IA s -> IC s -> Post s (step s (LShutdown lo sc v)).
+Proof.
+  intros I C. unfold step.
+  destruct (if lo then pd (ch s) || mip (ch s) else pd (ch s)); [apply Post_err; assumption|].
+  destruct sc.
+  - apply push_or_handle_spec; [exact I|tw|reflexivity].
+  - apply Post_flags; [exact I|ss|constructor|intros []; reflexivity|eapply IC_same; [|exact C]; si].
+Qed.
+
+Lemma step_LClosing s nh : IA s -> IC s -> Post s (step s (LClosing nh)).
+Proof.
+  intros I C. unfold step.
+  destruct (sh_local (sd s) && sh_remote (sd s)); cbn [andb];
+    [|apply Post_flags; [exact I|apply same_struct_refl|constructor|intros []; reflexivity|exact C]].
+  destruct (mip (ch s)) eqn:Hm; cbn [negb andb];
+    [apply Post_flags; [exact I|apply same_struct_refl|constructor|intros []; reflexivity|exact C]|].
+  destruct (negb (pd (ch s)) && nh);
+    [|apply Post_flags; [exact I|apply same_struct_refl|constructor|intros []; reflexivity|exact C]].
+  apply Post_flags; [exact I|apply same_struct_refl|repeat constructor|intros _; apply IC_alldone; assumption|exact C].
+Qed.
+
 (** ---------- every label *)
 Theorem step_PostL l s : IA s -> IC s -> PostL l s (step s l).
 Proof.
@@ -382,6 +403,8 @@ Proof.
   - apply step_LReestablish; assumption.
   - apply Post_PostL, step_LFundingLocked; assumption.
   - apply Post_PostL, step_LRecvChannelReady; assumption.
+  - apply Post_PostL, step_LShutdown; assumption.
+  - apply Post_PostL, step_LClosing; assumption.
 Qed.
 
 (** ---------- initial states and runs *)
